@@ -111,7 +111,14 @@ def correspondence(ctx):
                  "text, JSON, garbage, a directory) in first / middle / last position, comma list or repeated flag: non-zero and no inspection "
                  "ran, plus the all-loadable twin (CLI = library). Every third chain also runs `run -- <one blank argument>` (\"\", space, tab, "
                  "newline, mixed) and one argument with blanks inside (\"echo  hi\"): non-zero and no link written; and argument lists with "
-                 "blank / empty members whose link must record the command verbatim. Directory shapes: the working directory of run/record, the metadata directory (-d, relative, absolute, "
+                 "blank / empty members whose link must record the command verbatim. Every third chain: flag-defaults (run and record start/stop over a tree with a CRLF/CR file, an excluded name and a symlinked "
+                 "directory, without flags and with --normalize-line-endings / --follow-symlink-dirs / --exclude / --use-dsse / all: wrapper, "
+                 "materials and products against names+digests computed here and against RecordArtifacts called with the same options in a "
+                 "child process). Every third chain: error paths with exit status and absence of the output file: output-unwritable (run / "
+                 "record start / record stop / sign -o below a regular file, into a missing directory, onto a name taken by a directory), sign "
+                 "with a public key, --key / --cert file missing, match-products and key layout / key id on missing, garbage or directory input; "
+                 "verify with an unreadable --intermediate-certs (missing file, directory). Every link of every chain is also checked for its "
+                 "wrapper (legacy unless --use-dsse). Directory shapes: the working directory of run/record, the metadata directory (-d, relative, absolute, "
                  "trailing slash), verify's working directory, link directory and layout file name are drawn from names with %, %s, %d, %2F, [1], "
                  "*, ?, backslash, spaces, {x} and non-ASCII; in a quarter of the chains verify's working directory is entered through a "
                  "symlink (PWD = symlink path) so that a relative ../links differs between the kernel's and a lexical reading; CLI and library "
